@@ -6,7 +6,12 @@
 (*   Diff(l, r, cfg)      mirrors Differ.compare_to: _diff_between and the *)
 (*                        hash / list / AoH / set comparers, the two list  *)
 (*                        synchronisers, one operator per code branch.     *)
-(*                        cfg = [arrays, aoh, fixed]; fixed is the set of  *)
+(*                        cfg = [arrays, aoh, rules, keys, fixed]: the     *)
+(*                        global modes, the per-path [rules] PATH = mode   *)
+(*                        and [keys] PATH = identity key of an INI         *)
+(*                        configuration (sequences of [p, v], p a path     *)
+(*                        whose steps may be the wildcard); fixed is the   *)
+(*                        set of                                           *)
 (*                        the deviations named below that are repaired:    *)
 (*                        {} is the code as pinned (Mirrored), AllFixes    *)
 (*                        the design the theorems hold for (Fixed).        *)
@@ -39,6 +44,18 @@
 (*                          key-order sensitive (differ.py:419)            *)
 (*   E record-lacks-identity-key  a record without the identity key never  *)
 (*                          matches, not even itself (differ.py:795-803)   *)
+(*   F config-by-value      DifferConfig._get_config_for / aoh_diff_key    *)
+(*                          compare the configured and the queried node,   *)
+(*                          and their parents, with == : a rule or key for *)
+(*                          one list also governs an equal list under an   *)
+(*                          equal parent (differconfig.py:94-104, 236-243) *)
+(*   G zip-parentref        the zip loop hands position + 1 as parentref,  *)
+(*                          so a rule for a list held in a list is looked  *)
+(*                          up under its neighbour's position              *)
+(*                          (differ.py:399-421)                            *)
+(*   H rule-dpos            [rules] PATH = dpos reaches array_diff_mode,   *)
+(*                          which knows no dpos and raises NameError       *)
+(*                          (differ.py:393, differconfig.py:47-51)         *)
 (***************************************************************************)
 EXTENDS YData
 
@@ -67,6 +84,25 @@ ChildrenAt(d, i, st) ==
 RECURSIVE ResolveFrom(_, _, _, _)
 ResolveFrom(d, S, p, k) == IF k > Len(p) \/ S = {} THEN S ELSE ResolveFrom(d, UNION {ChildrenAt(d, i, p[k]) : i \in S}, p, k + 1)
 Resolve(d, p) == ResolveFrom(d, {Root}, p, 1)       \* the positions the path designates ({} when there is none)
+\* configuration paths: the steps above plus the wildcard (all children of a hash)
+WildStep == [i |-> -3, s |-> "*"]
+RECURSIVE MatchFrom(_, _, _, _)
+MatchFrom(d, S, p, k) ==
+  IF k > Len(p) \/ S = {} THEN S
+  ELSE MatchFrom(d, UNION {IF p[k].i = -3 THEN {d[i].kids[x] : x \in 1..Len(d[i].kids)} ELSE ChildrenAt(d, i, p[k]) : i \in S}, p, k + 1)
+MatchIds(d, p) == SortIds(MatchFrom(d, {Root}, p, 1))        \* Processor.get_nodes order = document order
+\* a key or wildcard step over a list (yamlpath searches the records of the list) is not modelled: no verdict then
+RECURSIVE MatchSureFrom(_, _, _, _)
+MatchSureFrom(d, S, p, k) ==
+  IF k > Len(p) \/ S = {} THEN TRUE
+  ELSE /\ \A i \in S : d[i].k = "seq" => p[k].i >= 0
+       /\ \A i \in S : (d[i].k = "set" \/ d[i].k = "s") => p[k].i # -3
+       /\ MatchSureFrom(d, UNION {IF p[k].i = -3 THEN {d[i].kids[x] : x \in 1..Len(d[i].kids)} ELSE ChildrenAt(d, i, p[k]) : i \in S}, p, k + 1)
+MatchSure(d, p) == MatchSureFrom(d, {Root}, p, 1)
+\* the nodes a configuration section registers: [id, v] in the order of the section, then of the matches
+Registered(d, sect) == Flatten([k \in 1..Len(sect) |-> LET ids == MatchIds(d, sect[k].p) IN [x \in 1..Len(ids) |-> [id |-> ids[x], v |-> sect[k].v]]])
+RegFor(reg, j) == LET hits == {x \in 1..Len(reg) : reg[x].id = j} IN IF hits = {} THEN "" ELSE reg[FirstIn(hits)].v
+RegValues(reg, j) == {reg[x].v : x \in {y \in 1..Len(reg) : reg[y].id = j}}
 IsPrefixOf(p, q) == Len(p) <= Len(q) /\ \A k \in 1..Len(p) : p[k] = q[k]
 
 (* ---- sub-tables (ids are pre-order numbers, so a subtree is a contiguous range) ---- *)
@@ -96,11 +132,19 @@ DocLeafIds(d) == IF EmptyDoc(d) THEN {} ELSE LeafIds(d)
    [arr, aoh, mixed]: whether a list without hashes / of hashes only / of both is order-insensitive. *)
 NumVal(s) == IF s.t = "bool" THEN (IF s.v \in {"true", "True", "TRUE"} THEN 1 ELSE 0) ELSE PyIntVal(s.v)
 ScalarEq(a, b) == IF a.t \in {"bool", "int"} /\ b.t \in {"bool", "int"} THEN NumVal(a) = NumVal(b) ELSE a.t = b.t /\ a.v = b.v
+HasKeyRec(d, i, kr) == d[i].k = "map" /\ \E x \in 1..Len(d[i].keys) : ScalarEq(d[i].keys[x], kr)
+ValAtRec(d, i, kr) == d[i].kids[FirstIn({x \in 1..Len(d[i].keys) : ScalarEq(d[i].keys[x], kr)})]
 SeqKind(d, i) == LET ks == d[i].kids nm == {j \in 1..Len(ks) : d[ks[j]].k = "map"} IN
   IF nm = {} THEN "arr" ELSE IF Cardinality(nm) = Len(ks) THEN "aoh" ELSE "mixed"
 PairKind(d1, i, d2, j) == LET a == SeqKind(d1, i) b == SeqKind(d2, j) IN
   IF Len(d1[i].kids) = 0 THEN b ELSE IF Len(d2[j].kids) = 0 THEN a ELSE IF a = b THEN a ELSE "mixed"
-Unordered(m, kind) == IF kind = "arr" THEN m.arr ELSE IF kind = "aoh" THEN m.aoh ELSE m.mixed
+\* m = [arr, aoh, mixed, arrays, aohmode, rr]: with rr (rules registered on the RIGHT document, by position) the
+\* mode of a list is its own rule, else the global one
+SyncedMode(mode) == mode \in {"value", "key", "deep"}
+Unordered(m, kind, j) ==
+  LET ru == RegFor(m.rr, j) IN
+  IF ru = "" THEN (IF kind = "arr" THEN m.arr ELSE IF kind = "aoh" THEN m.aoh ELSE m.mixed)
+  ELSE IF kind = "mixed" THEN m.mixed ELSE SyncedMode(ru)
 DropAt(s, k) == SubSeq(s, 1, k - 1) \o SubSeq(s, k + 1, Len(s))
 
 RECURSIVE Eq(_, _, _, _, _), BagMatch(_, _, _, _, _)
@@ -111,7 +155,7 @@ Eq(m, d1, i, d2, j) ==
   ELSE IF Len(a.kids) # Len(b.kids) THEN FALSE
   ELSE IF a.k = "map" THEN \A x \in 1..Len(a.kids) : \E y \in 1..Len(b.kids) : ScalarEq(a.keys[x], b.keys[y]) /\ Eq(m, d1, a.kids[x], d2, b.kids[y])
   ELSE IF a.k = "set" THEN \A x \in 1..Len(a.kids) : \E y \in 1..Len(b.kids) : ScalarEq(d1[a.kids[x]], d2[b.kids[y]])
-  ELSE IF Unordered(m, PairKind(d1, i, d2, j)) THEN BagMatch(m, d1, a.kids, d2, b.kids)
+  ELSE IF Unordered(m, PairKind(d1, i, d2, j), j) THEN BagMatch(m, d1, a.kids, d2, b.kids)
   ELSE \A x \in 1..Len(a.kids) : Eq(m, d1, a.kids[x], d2, b.kids[x])
 \* Eq is an equivalence for every m, so greedy matching decides bag equality
 BagMatch(m, d1, ks1, d2, ks2) ==
@@ -119,30 +163,42 @@ BagMatch(m, d1, ks1, d2, ks2) ==
   ELSE LET hit == {y \in 1..Len(ks2) : Eq(m, d1, ks1[1], d2, ks2[y])} IN
        IF hit = {} THEN FALSE ELSE BagMatch(m, d1, Tail(ks1), d2, DropAt(ks2, FirstIn(hit)))
 
-Ordered == [arr |-> FALSE, aoh |-> FALSE, mixed |-> FALSE]
-AnyOrder == [arr |-> TRUE, aoh |-> TRUE, mixed |-> TRUE]
+Ordered == [arr |-> FALSE, aoh |-> FALSE, mixed |-> FALSE, rr |-> <<>>]
+AnyOrder == [arr |-> TRUE, aoh |-> TRUE, mixed |-> TRUE, rr |-> <<>>]
 SyncAoH(cfg) == cfg.aoh \in {"value", "key", "deep"}
-ModeOrder(cfg) == [arr |-> cfg.arrays = "value", aoh |-> SyncAoH(cfg), mixed |-> FALSE]
+ModeOrder(cfg, d) == [arr |-> cfg.arrays = "value", aoh |-> SyncAoH(cfg), mixed |-> FALSE, rr |-> Registered(d, cfg.rules)]
 DataEq(l, r) == Eq(Ordered, l, Root, r, Root)
 DataEqUnordered(l, r) == Eq(AnyOrder, l, Root, r, Root)
-DataEqMode(cfg, l, r) == Eq(ModeOrder(cfg), l, Root, r, Root)
-Positional(cfg) == cfg.arrays = "position" /\ cfg.aoh \in {"position", "dpos"}
+DataEqMode(cfg, l, r) == Eq(ModeOrder(cfg, r), l, Root, r, Root)
+Positional(cfg) == /\ cfg.arrays = "position" /\ cfg.aoh \in {"position", "dpos"}
+                   /\ \A k \in 1..Len(cfg.rules) : cfg.rules[k].v \in {"position", "dpos"}
 
 \* Where the statement's "sequence order disregarded in the synchronised modes" has one reading only:
 \* no list mixing hashes with other members; no Array-of-Hashes left to `--aoh position|dpos` while
 \* `--arrays value` is in force; nothing nested in a synchronised list is itself a list; under key/deep
 \* every record of a list carries the same first key with pairwise different scalar values.
 HasSeqBelow(d, i) == \E y \in SubtreeIds(d, i) \ {i} : d[y].k = "seq"
-IdKeysFine(d, i) == LET ks == d[i].kids IN
-  /\ \A x \in 1..Len(ks) : Len(d[ks[x]].keys) > 0
-  /\ \A x \in 1..Len(ks) : d[ks[x]].keys[1] = d[ks[1]].keys[1] /\ d[d[ks[x]].kids[1]].k = "s"
-  /\ \A x, y \in 1..Len(ks) : x # y => ~ScalarEq(d[d[ks[x]].kids[1]], d[d[ks[y]].kids[1]])
-ClearDoc(cfg, d) == \A i \in 1..Len(d) : d[i].k = "seq" =>
-  LET kd == SeqKind(d, i) IN
-  /\ kd # "mixed"
-  /\ (kd = "aoh" /\ cfg.arrays = "value") => SyncAoH(cfg)
-  /\ Unordered(ModeOrder(cfg), kd) => ~HasSeqBelow(d, i)
-  /\ (kd = "aoh" /\ cfg.aoh \in {"key", "deep"}) => IdKeysFine(d, i)
+\* every record carries the identity key kr (a key record), with pairwise different scalar values
+IdKeysFine(d, i, kr) == LET ks == d[i].kids IN
+  /\ \A x \in 1..Len(ks) : HasKeyRec(d, ks[x], kr) /\ d[ValAtRec(d, ks[x], kr)].k = "s"
+  /\ \A x, y \in 1..Len(ks) : x # y => ~ScalarEq(d[ValAtRec(d, ks[x], kr)], d[ValAtRec(d, ks[y], kr)])
+ClearDoc(cfg, d) ==
+  LET rr == Registered(d, cfg.rules) kr == Registered(d, cfg.keys) IN
+  /\ \A k \in 1..Len(cfg.rules) : MatchSure(d, cfg.rules[k].p)
+  /\ \A k \in 1..Len(cfg.keys) : MatchSure(d, cfg.keys[k].p)
+  /\ \A i \in 1..Len(d) : d[i].k = "seq" =>
+      LET kd == SeqKind(d, i) ru == RegFor(rr, i)
+          aohmode == IF ru = "" THEN cfg.aoh ELSE ru
+          arrmode == IF ru \in {"position", "value"} THEN ru ELSE cfg.arrays
+          synced == IF kd = "aoh" THEN SyncedMode(aohmode) ELSE arrmode = "value"
+      IN /\ kd # "mixed"
+         /\ Cardinality(RegValues(rr, i)) <= 1 /\ Cardinality(RegValues(kr, i)) <= 1
+         /\ kd = "arr" => ru \in {"", "position", "value"}
+         /\ (kd = "aoh" /\ arrmode = "value") => SyncedMode(aohmode)
+         /\ synced => ~HasSeqBelow(d, i)
+         /\ (kd = "aoh" /\ aohmode \in {"key", "deep"}) =>
+              (IF RegFor(kr, i) # "" THEN IdKeysFine(d, i, [t |-> "str", v |-> RegFor(kr, i)])
+               ELSE Len(d[d[i].kids[1]].keys) > 0 /\ IdKeysFine(d, i, d[d[i].kids[1]].keys[1]))
 Clear(cfg, l, r) == ClearDoc(cfg, l) /\ ClearDoc(cfg, r)
 \* what the statement demands of NoChange: "same" | "diff" | "info" (no single reading: never a verdict)
 Expect(cfg, l, r) ==
@@ -181,7 +237,7 @@ NoChange(rep) == \A k \in 1..Len(rep) : rep[k].a = "SAME"
 (* ======================================================================= *)
 (* The differ.  c = [l, r, cfg]; acc = [es, crash, dom] threads self._diffs *)
 (* ======================================================================= *)
-AllFixes == {"A", "B", "C", "D", "E"}
+AllFixes == {"A", "B", "C", "D", "E", "F", "G", "H"}
 Fx(c, dev) == dev \in c.cfg.fixed
 Ent(a, p, li, ri) == [a |-> a, p |-> p, li |-> li, ri |-> ri]
 Emit1(acc, e) == [acc EXCEPT !.es = Append(@, e)]
@@ -233,7 +289,7 @@ SyncByKey(c, lk, rk, hask, idk, x, rest, out) ==
        IN IF hit = {} THEN SyncByKey(c, lk, rk, hask, idk, x + 1, rest, Append(out, [lx |-> x, rx |-> 0]))
           ELSE LET y == FirstIn(hit) IN SyncByKey(c, lk, rk, hask, idk, x + 1, DropAt(rest, y), Append(out, [lx |-> x, rx |-> rest[y]]))
 
-RECURSIVE Between(_, _, _, _, _), DictCommon(_, _, _, _, _, _), SetCommon(_, _, _, _, _, _), ZipLoop(_, _, _, _, _, _, _),
+RECURSIVE Between(_, _, _, _, _, _), DictCommon(_, _, _, _, _, _), SetCommon(_, _, _, _, _, _), ZipLoop(_, _, _, _, _, _, _),
           SyncedPairs(_, _, _, _, _, _, _), KeyedPairs(_, _, _, _, _, _, _, _)
 
 \* _diff_dicts (differ.py:205-288); YAML tags are outside the model
@@ -248,7 +304,7 @@ Dicts(c, acc, p, i, j) ==
 DictCommon(c, acc, p, i, j, y) ==           \* keys of both sides, in the order of the right side
   LET b == c.r[j] IN
   IF y > Len(b.keys) \/ acc.crash THEN acc
-  ELSE IF HasKey(c.l, i, b.keys[y]) THEN DictCommon(c, Between(c, acc, Append(p, DKey(b.keys[y].v)), ValAt(c.l, i, b.keys[y]), b.kids[y]), p, i, j, y + 1)
+  ELSE IF HasKey(c.l, i, b.keys[y]) THEN DictCommon(c, Between(c, acc, Append(p, DKey(b.keys[y].v)), ValAt(c.l, i, b.keys[y]), b.kids[y], FALSE), p, i, j, y + 1)
   ELSE DictCommon(c, acc, p, i, j, y + 1)
 
 \* _diff_sets (differ.py:558-660)
@@ -266,7 +322,7 @@ SetCommon(c, acc, p, i, j, y) ==
   LET b == c.r[j] IN
   IF y > Len(b.kids) \/ acc.crash THEN acc
   ELSE IF InSet(c.l, i, c.r[b.kids[y]])
-       THEN SetCommon(c, Between(c, acc, Append(p, DKey(c.r[b.kids[y]].v)), MemberAt(c.l, i, c.r[b.kids[y]]), b.kids[y]), p, i, j, y + 1)
+       THEN SetCommon(c, Between(c, acc, Append(p, DKey(c.r[b.kids[y]].v)), MemberAt(c.l, i, c.r[b.kids[y]]), b.kids[y], FALSE), p, i, j, y + 1)
        ELSE SetCommon(c, acc, p, i, j, y + 1)
 
 \* the zip_longest loop of _diff_arrays_of_scalars (differ.py:396-425); x is the 1-based position
@@ -276,7 +332,7 @@ ZipLoop(c, acc, p, i, j, deep, x) ==
   ELSE LET nx ==
          IF NoneL(c, lk, x) THEN Emit1(acc, Ent("ADD", q, 0, IF NoneR(c, rk, x) THEN 0 ELSE rk[x]))          \* 401-406
          ELSE IF NoneR(c, rk, x) THEN Emit1(acc, Ent("DELETE", q, lk[x], 0))                                  \* 407-412
-         ELSE IF deep THEN Between(c, acc, q, lk[x], rk[x])                                                   \* 413-418
+         ELSE IF deep THEN Between(c, acc, q, lk[x], rk[x], TRUE)                                                 \* 413-418
          ELSE IF PyNeVal(c, lk[x], rk[x]) THEN Emit1(acc, Ent("CHANGE", q, lk[x], rk[x]))                     \* 419-425
          ELSE IF Fx(c, "D") THEN Emit1(acc, Ent("SAME", q, lk[x], rk[x])) ELSE acc                           \* repaired: say so
        IN ZipLoop(c, nx, p, i, j, deep, x + 1)
@@ -294,13 +350,40 @@ SyncedPairs(c, acc, p, i, j, pairs, k) ==
                          IF d = 0 THEN Emit1(acc, Ent("ADD", q, 0, ri))
                          ELSE [acc EXCEPT !.es = Append(DropAt(@, d), Ent("CHANGE", q, acc.es[d].li, ri))])   \* DELETE + ADD = CHANGE
                  ELSE IF NoneR(c, rk, rx) THEN Emit1(acc, Ent("DELETE", Append(p, DIdx(lx - 1)), lk[lx], 0))
-                 ELSE Between(c, acc, Append(p, DIdx(lx - 1)), lk[lx], rk[rx])
+                 ELSE Between(c, acc, Append(p, DIdx(lx - 1)), lk[lx], rk[rx], FALSE)
        IN SyncedPairs(c, nx, p, i, j, pairs, k + 1)
 Synced(c, acc, p, i, j) ==
   SyncedPairs(c, acc, p, i, j, SyncByValue(c, c.l[i].kids, c.r[j].kids, 1, [y \in 1..Len(c.r[j].kids) |-> y], <<>>), 1)
 
-\* _diff_arrays_of_scalars (differ.py:365-425): the array mode decides first, also for an AoH sent here
-Arrays(c, acc, p, i, j, deep) == IF c.cfg.arrays = "value" THEN Synced(c, acc, p, i, j) ELSE ZipLoop(c, acc, p, i, j, deep, 1)
+(* ---- DifferConfig: the per-path rules and keys (differconfig.py) ----
+   prepare() registers the nodes of the RIGHT document that each [rules] / [keys] path matches (c.rr, c.kr).
+   _get_config_for looks a list up as NodeCoords(rhs, rhs_parent, parentref): the first registered entry whose node,
+   parent and parentref agree - compared with == in the pinned code (deviation F), by position when repaired.
+   z: the list is an element met by the zip loop, whose parentref is one too high (deviation G). *)
+RefOf(d, x) == IF d[x].par = 0 THEN [i |-> -9, s |-> "", t |-> ""]
+               ELSE LET pa == d[d[x].par] pos == ChildPos(d, x) IN
+                    IF pa.k = "map" THEN [i |-> -1, s |-> pa.keys[pos].v, t |-> pa.keys[pos].t]
+                    ELSE IF pa.k = "seq" THEN [i |-> pos - 1, s |-> "", t |-> ""]
+                    ELSE [i |-> -1, s |-> d[x].v, t |-> d[x].t]
+QueryRef(c, j, z) == LET rf == RefOf(c.r, j) IN IF z /\ ~Fx(c, "G") THEN [rf EXCEPT !.i = @ + 1] ELSE rf
+SameNode(c, e, j) == IF Fx(c, "F") THEN e = j ELSE Eq(Ordered, c.r, e, c.r, j)
+SameParent(c, e, j) == LET pe == c.r[e].par pj == c.r[j].par IN
+  IF Fx(c, "F") THEN pe = pj ELSE (pe = 0 /\ pj = 0) \/ (pe # 0 /\ pj # 0 /\ Eq(Ordered, c.r, pe, c.r, pj))
+RuleAt(c, j, z) ==                       \* _get_rule_for: "" when no rule governs the list
+  LET hits == {x \in 1..Len(c.rr) : SameNode(c, c.rr[x].id, j) /\ SameParent(c, c.rr[x].id, j) /\ RefOf(c.r, c.rr[x].id) = QueryRef(c, j, z)} IN
+  IF hits = {} THEN "" ELSE c.rr[FirstIn(hits)].v
+KeyAt(c, j) ==                           \* aoh_diff_key of a record of list j: the key of the first registered node equal to its parent
+  LET hits == {x \in 1..Len(c.kr) : SameNode(c, c.kr[x].id, j)} IN
+  IF hits = {} THEN "" ELSE c.kr[FirstIn(hits)].v
+
+\* _diff_arrays_of_scalars (differ.py:365-425): the array mode decides first, also for an AoH sent here.
+\* array_diff_mode turns the rule into an ArrayDiffOpts: dpos / key / deep raise NameError - for an AoH governed by
+\* `dpos` that is deviation H (repaired: such a rule says nothing about the array mode), otherwise a configuration error
+Arrays(c, acc, p, i, j, deep, z, viaAoH) ==
+  LET ru == RuleAt(c, j, z)
+      mode == IF ru = "" \/ (ru = "dpos" /\ viaAoH /\ Fx(c, "H")) THEN c.cfg.arrays ELSE ru
+  IN IF mode \notin {"position", "value"} THEN [acc EXCEPT !.crash = TRUE, !.dom = (ru = "dpos" /\ viaAoH)]
+     ELSE IF mode = "value" THEN Synced(c, acc, p, i, j) ELSE ZipLoop(c, acc, p, i, j, deep, 1)
 
 \* the loop of _diff_arrays_of_hashes over the key-synchronised pairs (differ.py:485-518)
 KeyedPairs(c, acc, p, i, j, deep, pairs, k) ==
@@ -309,43 +392,47 @@ KeyedPairs(c, acc, p, i, j, deep, pairs, k) ==
   ELSE LET lx == pairs[k].lx rx == pairs[k].rx
            nx == IF lx = 0 THEN Emit1(acc, Ent("ADD", Append(p, DIdx(rx - 1)), 0, rk[rx]))
                  ELSE IF rx = 0 THEN Emit1(acc, Ent("DELETE", Append(p, DIdx(lx - 1)), lk[lx], 0))
-                 ELSE IF deep THEN Between(c, acc, Append(p, DIdx(rx - 1)), lk[lx], rk[rx])            \* the RIGHT position
+                 ELSE IF deep THEN Between(c, acc, Append(p, DIdx(rx - 1)), lk[lx], rk[rx], FALSE)         \* the RIGHT position
                  ELSE Emit1(acc, Ent(IF PyEqVal(c, lk[lx], rk[rx]) THEN "SAME" ELSE "CHANGE", Append(p, DIdx(lx - 1)), lk[lx], rk[rx]))
        IN KeyedPairs(c, nx, p, i, j, deep, pairs, k + 1)
 AllHashes(d, ks) == \A x \in 1..Len(ks) : d[ks[x]].k = "map"
-AoH(c, acc, p, i, j) ==
-  LET lk == c.l[i].kids rk == c.r[j].kids first == c.r[rk[1]] mode == c.cfg.aoh IN
-  IF mode = "position" THEN Arrays(c, acc, p, i, j, FALSE)
-  ELSE IF mode = "dpos" THEN Arrays(c, acc, p, i, j, TRUE)
+AoH(c, acc, p, i, j, z) ==
+  LET lk == c.l[i].kids rk == c.r[j].kids first == c.r[rk[1]]
+      ru == RuleAt(c, j, z) mode == IF ru = "" THEN c.cfg.aoh ELSE ru
+      uk == KeyAt(c, j) IN
+  IF mode = "position" THEN Arrays(c, acc, p, i, j, FALSE, z, TRUE)
+  ELSE IF mode = "dpos" THEN Arrays(c, acc, p, i, j, TRUE, z, TRUE)
   ELSE IF mode = "value" THEN Synced(c, acc, p, i, j)
   ELSE IF ~(AllHashes(c.l, lk) /\ AllHashes(c.r, rk)) THEN [acc EXCEPT !.dom = FALSE, !.crash = TRUE]   \* outside "lists whose members are all hashes"
-  ELSE LET hask == Len(first.keys) > 0
-           idk == IF hask THEN first.keys[1] ELSE [t |-> "str", v |-> ""]
+  ELSE LET hask == uk # "" \/ Len(first.keys) > 0
+           idk == IF uk # "" THEN [t |-> "str", v |-> uk] ELSE IF hask THEN first.keys[1] ELSE [t |-> "str", v |-> ""]
        IN KeyedPairs(c, acc, p, i, j, mode = "deep", SyncByKey(c, lk, rk, hask, idk, 1, [y \in 1..Len(rk) |-> y], <<>>), 1)
 
 \* _diff_lists (differ.py:520-555)
-Lists(c, acc, p, i, j) ==
+Lists(c, acc, p, i, j, z) ==
   LET rk == c.r[j].kids IN
-  IF Len(rk) = 0 THEN (IF Fx(c, "B") THEN ZipLoop(c, acc, p, i, j, TRUE, 1) ELSE acc)          \* differ.py:549
-  ELSE IF c.r[rk[1]].k = "map" THEN AoH(c, acc, p, i, j)
-  ELSE Arrays(c, acc, p, i, j, TRUE)
+  IF Len(rk) = 0 THEN (IF Fx(c, "B") THEN Arrays(c, acc, p, i, j, TRUE, z, FALSE) ELSE acc)          \* differ.py:549
+  ELSE IF c.r[rk[1]].k = "map" THEN AoH(c, acc, p, i, j, z)
+  ELSE Arrays(c, acc, p, i, j, TRUE, z, FALSE)
 
 \* _diff_between (differ.py:662-710), _diff_scalars (160-203, EYAML values are outside the model)
-Between(c, acc, p, i, j) ==
+Between(c, acc, p, i, j, z) ==
   LET a == c.l[i] b == c.r[j] IN
   IF acc.crash THEN acc
   ELSE IF a.k # b.k THEN          \* kinds clash: everything left goes, everything right comes - except an empty document
     LET acc1 == IF Len(p) = 0 /\ IsNullAt(c.l, i) THEN acc ELSE Purge(c, acc, p, i) IN
     IF Len(p) = 0 /\ IsNullAt(c.r, j) THEN acc1 ELSE AddAll(c, acc1, p, j)
   ELSE IF a.k = "map" THEN Dicts(c, acc, p, i, j)
-  ELSE IF a.k = "seq" THEN Lists(c, acc, p, i, j)
+  ELSE IF a.k = "seq" THEN Lists(c, acc, p, i, j, z)
   ELSE IF a.k = "set" THEN Sets(c, acc, p, i, j)
   ELSE Emit1(acc, Ent(IF ScalarEq(a, b) THEN "SAME" ELSE "CHANGE", p, i, j))
 
-Diff(l, r, cfg) == Between([l |-> l, r |-> r, cfg |-> cfg], [es |-> <<>>, crash |-> FALSE, dom |-> TRUE], <<>>, Root, Root)
+Diff(l, r, cfg) == Between([l |-> l, r |-> r, cfg |-> cfg, rr |-> Registered(r, cfg.rules), kr |-> Registered(r, cfg.keys)],
+                            [es |-> <<>>, crash |-> FALSE, dom |-> TRUE], <<>>, Root, Root, FALSE)
 
-MirroredDiff(l, r, arrays, aoh) == Diff(l, r, [arrays |-> arrays, aoh |-> aoh, fixed |-> {}])         \* the code as pinned
-FixedDiff(l, r, arrays, aoh) == Diff(l, r, [arrays |-> arrays, aoh |-> aoh, fixed |-> AllFixes])       \* the repaired design
+GlobalCfg(arrays, aoh, fixed) == [arrays |-> arrays, aoh |-> aoh, rules |-> <<>>, keys |-> <<>>, fixed |-> fixed]
+MirroredDiff(l, r, arrays, aoh) == Diff(l, r, GlobalCfg(arrays, aoh, {}))              \* the code as pinned
+FixedDiff(l, r, arrays, aoh) == Diff(l, r, GlobalCfg(arrays, aoh, AllFixes))           \* the repaired design
 
 \* model entries -> valued entries (Python None is the null value on the side an action speaks about)
 Valued(es, l, r) == [k \in 1..Len(es) |->
